@@ -2978,6 +2978,7 @@ namespace bloch::compiler {
         bool savedDtor = m_inDestructor;
         auto savedMethod = m_currentMethod;
         bool savedOverride = m_currentMethodIsOverride;
+        auto savedReturn = m_currentReturn;
         auto restoreState = makeScopeExit([&] {
             m_inStaticContext = savedStatic;
             m_currentClass = std::move(savedClass);
@@ -2985,10 +2986,13 @@ namespace bloch::compiler {
             m_inDestructor = savedDtor;
             m_currentMethod = std::move(savedMethod);
             m_currentMethodIsOverride = savedOverride;
+            m_currentReturn = std::move(savedReturn);
         });
         m_inStaticContext = false;
         m_inConstructor = false;
         m_inDestructor = true;
+        // A destructor returns nothing: 'return;' is fine, 'return value;' is not.
+        m_currentReturn = combine(ValueType::Void, "");
         m_currentMethod = "<destructor>";
         m_currentMethodIsOverride = false;
         ScopeGuard scope(*this);
